@@ -89,8 +89,7 @@ impl PortFilter {
     /// // Matches ports 8000 through 8999
     /// ```
     pub fn destination_range(mut self, range: std::ops::Range<u16>) -> Self {
-        self.destination_ranges
-            .push((range.start, range.end.saturating_sub(1)));
+        self.destination_ranges.push(Self::inclusive_bounds(&range));
         self
     }
 
@@ -105,9 +104,18 @@ impl PortFilter {
     /// // Matches ports 10000 through 19999
     /// ```
     pub fn source_range(mut self, range: std::ops::Range<u16>) -> Self {
-        self.source_ranges
-            .push((range.start, range.end.saturating_sub(1)));
+        self.source_ranges.push(Self::inclusive_bounds(&range));
         self
+    }
+
+    /// Converts a half-open range to inclusive bounds. An empty range (such as `0..0`) becomes
+    /// bounds that no port satisfies, so it constrains its side without matching anything.
+    fn inclusive_bounds(range: &std::ops::Range<u16>) -> (u16, u16) {
+        if range.start < range.end {
+            (range.start, range.end.saturating_sub(1))
+        } else {
+            (1, 0)
+        }
     }
 
     /// Add multiple destination ports
